@@ -318,8 +318,13 @@ def cq_case(prog, group, fuel=FUEL):
 
 
 def go_case(prog, stores, det, shuffle_rng=None):
+    sc = {}
+    for pd, col in sort_cols(prog):
+        sc.setdefault(id_name(pd), []).append(col)
+    # sort_cols: the harness puts configurations that differ only in the element order of collected lists
+    # into one group (the judge compares those columns as multisets anyway)
     return {"src": to_mangle(prog, shuffle_rng), "pre": dc.facts_text(prog.get("pre", [])),
-            "stores": stores, "det": det, "limit": LIMIT, "timeout_ms": 20000}
+            "stores": stores, "det": det, "limit": LIMIT, "timeout_ms": 20000, "sort_cols": sc}
 
 
 def show_facts(ck, expr):
